@@ -9,6 +9,7 @@ import (
 	"verifharness/internal/c04"
 	"verifharness/internal/c06"
 	"verifharness/internal/c08"
+	"verifharness/internal/c09"
 	"verifharness/internal/c14"
 	"verifharness/internal/c15"
 	"verifharness/internal/c16"
@@ -24,6 +25,7 @@ var subs = map[string]sub{
 	"c04": c04.Run,
 	"c06": c06.Run,
 	"c08": c08.Run,
+	"c09": c09.Run,
 	"c14": c14.Run,
 	"c15": c15.Run,
 	"c16": c16.Run,
@@ -36,6 +38,7 @@ var gens = map[string]func(outDir string) error{
 	"registry":  c06.GenRegistry,
 	"ruletable": c15.GenRuleTable,
 	"ir":        c17.GenIR,
+	"suggest":   c09.GenSuggestTable,
 }
 
 func main() {
